@@ -134,7 +134,8 @@ CLAIMED['C01'] = {
             'release fact bases are analysed separately because RetryPolicy and validation paths differ — the suite '
             'never runs the release paths. Decides "Ok is certified", not that the certifier is numerically right.',
     'note': 'Trusted: rustc MIR; the L4 leaf table; Pseudomanifold has no Level-3 completion gate by design (noted in '
-            'evidence). Vertex-set / statistics clauses are not decided.',
+            'evidence). Of the vertex-set clause only element conservation in the de-duplication family and UUID/data of '
+            're-created vertices are decided; statistics are not.',
     'technique': 'greatest-fixed-point certification (dominance on success edges) over rustc MIR',
     'design': '§5 C01',
 }
